@@ -296,8 +296,13 @@ impl<'tcx> Cx<'tcx> {
             fields.push(("ty", J::s(&self.ty_str(t))));
         }
         let derived = tcx.def_span(owner).from_expansion()
-            && tcx.def_span(owner).macro_backtrace().any(|d| {
-                matches!(d.kind, rustc_span::ExpnKind::Macro(rustc_span::MacroKind::Derive, _))
+            && tcx.def_span(owner).macro_backtrace().any(|d| match d.kind {
+                rustc_span::ExpnKind::Macro(rustc_span::MacroKind::Derive, name) => matches!(
+                    name.as_str(),
+                    "Debug" | "Clone" | "Copy" | "PartialEq" | "Eq" | "Hash" | "PartialOrd" | "Ord" | "Default"
+                        | "Logos" | "Options"
+                ),
+                _ => false,
             });
         if derived {
             // bodies written by #[derive] are not sylt's own code; keep the signature only
